@@ -29,9 +29,18 @@ import (
 )
 
 type pwOffer struct {
-	zone, ct  string
-	price     float64
-	available bool
+	zone, ct    string
+	price       float64
+	available   bool
+	overrideCPU string // when set, this offering's capacity override for cpu (a different allocatable group)
+}
+
+// cpuOf: the allocatable cpu a node launched into offering o of type t has.
+func (t *pwType) cpuOf(o pwOffer) resource.Quantity {
+	if o.overrideCPU != "" {
+		return resource.MustParse(o.overrideCPU)
+	}
+	return t.cpu
 }
 
 type pwType struct {
@@ -81,10 +90,14 @@ func (w *pwWorld) addType(name string, cpu resource.Quantity, offers []pwOffer) 
 	zones, cts := map[string]bool{}, map[string]bool{}
 	var zs, cs []string
 	for _, o := range offers {
-		ofs = append(ofs, &cloudprovider.Offering{Available: o.available, Price: o.price, Requirements: scheduling.NewRequirements(
+		of := &cloudprovider.Offering{Available: o.available, Price: o.price, Requirements: scheduling.NewRequirements(
 			scheduling.NewRequirement(corev1.LabelTopologyZone, corev1.NodeSelectorOpIn, o.zone),
 			scheduling.NewRequirement(v1.CapacityTypeLabelKey, corev1.NodeSelectorOpIn, o.ct),
-		)})
+		)}
+		if o.overrideCPU != "" {
+			of.CapacityOverride = corev1.ResourceList{corev1.ResourceCPU: resource.MustParse(o.overrideCPU)}
+		}
+		ofs = append(ofs, of)
 		if !zones[o.zone] {
 			zones[o.zone] = true
 			zs = append(zs, o.zone)
